@@ -367,7 +367,7 @@ theorem fitSimple_some {flip : Bool} {xm ym : Metric} {N : Nat} {groups : List (
       cs[fit.iBest]? = some best ∧ fit.interps = best ∧ fit.rules = best.map simpleRule ∧
       fit.objective = objSimple groups best ∧
       fit.iBest = force.getD (argmaxFirst (cs.map (objSimple groups))) := by
-  unfold fitSimple at h
+  rw [fitSimple_eq] at h
   cases hh : hullsOf flip xm ym groups with
   | none => rw [hh] at h; simp at h
   | some hulls =>
@@ -396,7 +396,7 @@ theorem fitEO_some {flip : Bool} {obj : Metric} {N : Nat} {groups : List (List R
       fit.objective = objEO obj groups (gridVal N fit.iBest) yBest ∧
       fit.iBest = force.getD (argmaxFirst
         ((List.range (N + 1)).zipWith (fun i y => objEO obj groups (gridVal N i) y) ymins)) := by
-  unfold fitEO at h
+  rw [fitEO_eq] at h
   cases hh : hullsOf flip eoXMetric eoYMetric groups with
   | none => rw [hh] at h; simp at h
   | some hulls =>
